@@ -21,6 +21,7 @@ VIOLATIONS = {
     'danglingRefTable': 'lib:TableNotFoundError', 'danglingRefColumn': 'lib:ColumnNotFoundError',
     'danglingIndexColumn': 'lib:ColumnNotFoundError', 'danglingGroupTable': 'lib:TableNotFoundError',
     'dupRefCommentDiffers': 'lib:DatabaseValidationError',
+    'dupInlineRef': 'lib:DatabaseValidationError',
 }
 
 
@@ -100,12 +101,43 @@ def inject(rng, spec, kind):
     raise ValueError(kind)
 
 
+def mk_inline_case(rng, spec, kind):
+    """the same relationship declared twice, BOTH TIMES INLINE: in one settings list (`[ref: > a.b, ref: > a.b]`). Written by the speller
+    from a spec that holds the reference twice; the base document holds it once."""
+    import copy
+    T = spec['tables']
+    used = {(r['t1'], tuple(r['col1']), r['t2'], tuple(r['col2'])) for r in spec['refs']} | \
+           {(r['t2'], tuple(r['col2']), r['t1'], tuple(r['col1'])) for r in spec['refs']}
+    cands = [(a, ca, b, cb) for a in range(len(T)) for ca in range(len(T[a]['columns'])) for b in range(len(T))
+             for cb in range(len(T[b]['columns'])) if (a, ca) != (b, cb) and (a, (ca,), b, (cb,)) not in used]
+    if not cands:
+        return None
+    a, ca, b, cb = rng.choice(cands)
+    ref = {'type': rng.choice(['>', '<', '-']), 't1': a, 'col1': [ca], 't2': b, 'col2': [cb], 'name': None, 'comment': None,
+           'on_update': None, 'on_delete': None, 'inline': True}
+    once, twice = copy.deepcopy(spec), copy.deepcopy(spec)
+    once['refs'].append(dict(ref))
+    twice['refs'].append(dict(ref))
+    twice['refs'].append(dict(ref))
+    if not (SP.spellable(once) and SP.spellable(twice)):
+        return None
+    st = rng.getstate()
+    base_text = SP.spell(once, rng, {'varied': True, 'ref_form': 'inline'})[0]
+    rng.setstate(st)
+    doc = SP.spell(twice, rng, {'varied': True, 'ref_form': 'inline'})[0]
+    base = PC.impl_parse(base_text, spec['allow_properties'])
+    r = PC.impl_parse(doc, spec['allow_properties'])
+    return {'kind': kind, 'text': doc, 'props': spec['allow_properties'], 'pos': 0, 'n': 1, 'impl': r, 'base_ok': 'ok' in base}
+
+
 def mk_case(job):
     seed, kind = job
     rng = random.Random(seed)
     spec = SP.normalise_for_spelling(GD.gen_spec(rng, wild=False, max_tables=3), RT.ref_norm)
     if not SP.spellable(spec):
         return None
+    if kind == 'dupInlineRef':
+        return mk_inline_case(rng, spec, kind)
     text, exp, info = SP.spell(spec, rng, {'varied': True})
     extra = inject(rng, spec, kind)
     if extra is None:
@@ -157,9 +189,9 @@ def main(tier, seed):
         return 'ok' in r
 
     return ctx.finish(
-        rule='a well-formed spelled document plus one injected declaration breaking one rule (13 kinds: duplicate table, reused '
+        rule='a well-formed spelled document plus one injected declaration breaking one rule (14 kinds: duplicate table, reused '
              'alias, alias equal to a key, duplicate enum, duplicate group, table twice in a group via any addressing, identical '
-             'reference in any form/addressing, column-less table, dangling table/column in reference, index, group), inserted at '
+             'reference in any form/addressing - also twice inline in one settings list -, column-less table, dangling table/column in reference, index, group), inserted at '
              'a random element boundary, in random spelling. Distinct by document hash; all are non-trivial',
         explanation='Theorems about the build model (Build.buildDatabase = build_database + Database.add_* + Blueprint.build): '
                     'build_rule_abiding - whatever it returns has pairwise key-disjoint tables (full name and alias), pairwise different '
